@@ -7,7 +7,7 @@ cd "$WT" || exit 2
 git checkout -q -- . ; git clean -fdq -- tests examples src common precompile 2>/dev/null
 export CARGO_BUILD_JOBS=8
 pass_tests() { cargo test --workspace --no-fail-fast --offline 2>&1 | grep -E "^test result: ok. 90 passed" >/dev/null; }
-run_demo() { mkdir -p tests; cp "$M/demo.rs" tests/verif_demo.rs; cargo test --offline --test verif_demo 2>&1 | grep -E "^test result:" | tail -1; rm -f tests/verif_demo.rs; rmdir tests 2>/dev/null; }
+run_demo() { mkdir -p tests; cp "$M/demo.rs" tests/verif_demo.rs; cargo test --offline --features verif-hooks --test verif_demo 2>&1 | grep -E "^test result:" | tail -1; rm -f tests/verif_demo.rs; rmdir tests 2>/dev/null; }
 git apply "$M/patch.diff" || { echo "VERDICT $M: patch does not apply"; exit 1; }
 # stale generated tables (precompile edits)
 if git diff --name-only | grep -q -E "^precompile/|opening_lines.txt"; then rm -f target/*/build/chess-*/out/*.rs; fi
